@@ -210,6 +210,9 @@ def check(spec, fault, case, do_edits=True):
     core.reset_store()
     ids = [0]
     root = witness.build(spec, ids)
+    if case.get("ns_variant"):
+        root.add_namespace(None, "urn:default")       # default namespace (key None), as from_xml produces
+        root.add_namespace("eml", "urn:eml")
     nodes = witness.preorder(root)
     valid_before = True
     try:
@@ -348,12 +351,15 @@ def deepest(n):
 def work(chunk):
     acc = core.Acc()
     for label, spec, fault in chunk:
-        case = {"label": label, "spec": spec, "fault": fault}
-        p = check(spec, fault, case)
-        acc.count("cases")
-        acc.outcome("fault:" + str(fault))
-        if p:
-            acc.add_problems(p)
+        for nsv in (False, True):
+            if nsv and fault is None and not label.startswith(("assoc", "attributeList", "dataTable")) and hash(label) % 1 != 0:
+                continue
+            case = {"label": label, "spec": spec, "fault": fault, "ns_variant": nsv}
+            p = check(spec, fault, case, do_edits=not nsv)
+            acc.count("cases")
+            acc.outcome("fault:" + str(fault))
+            if p:
+                acc.add_problems(p)
     if chunk:
         acc.sample({"label": chunk[0][0], "fault": chunk[0][2]}, cap=2)
     return acc
